@@ -83,6 +83,7 @@ public:
 
   Iterator find(const T& key) const
   {
+    Item* result = 0;
     for(Item* item = root; item; )
     {
       if(key > item->key)
@@ -96,8 +97,13 @@ public:
         continue;
       }
       else
-        return item;
+      { // remember the match and keep looking for an earlier item with the same key
+        result = item;
+        item = item->left;
+      }
     }
+    if(result)
+      return result;
     return _end;
   }
 
